@@ -439,6 +439,7 @@ func checkC20(c *Check) {
 			c.Sample(gc)
 		}
 	}
+	checkC20Storage(c, cfg)
 	// wide sharing: N leaves, each referenced from a slice and from a map
 	for _, n := range []int{1, 10, 255, 256, 257, 300, 1500} {
 		root := &gNode{ID: 0, M: map[string]*gNode{}}
